@@ -39,12 +39,13 @@ Inductive cli_outcome := Exits (code : Z) | Runs (s : settings).
 Definition AREAREF_DEFAULT : Qc := 1.
 Definition KEXP_DEFAULT : Qc := 0.
 
-(** get_factor: CLI (three numbers; a non-number exits 65) > metadata (unparsable metadata is ignored) > none *)
+(** get_factor: CLI (three numbers; a non-number exits 65) > metadata (consulted only without the option; an
+    unreadable value exits 65 since fix b410aff) > none *)
 Definition resolve_factor (cli meta : arg RNC) : option (option RNC) :=
   match cli with
   | Invalid => None
   | Given v => Some (Some v)
-  | Absent => match meta with Given v => Some (Some v) | _ => Some None end
+  | Absent => match meta with Given v => Some (Some v) | Invalid => None | Absent => Some None end
   end.
 
 (** factor source: file > location option > location metadata > exit 64; an unknown location in the
